@@ -53,6 +53,7 @@ def check(cx):
         'R13.10 the name validators accept only what can travel as a middle parameter: validate_username / validate_channel return Ok only for non-empty names without a space, comma or colon (a trailing parameter can carry all of these into a name)',
         'R13.11 every Reply variant is rendered with the numeric in its name, the client as first parameter, and every one of its fields (100 variants)',
         'R13.12 every reply is addressed to the requesting connection: the client parameter of every Reply literal is client_name() of the connection\'s own state, which is its nick, else its user name, else its host',
+        'R13.13 the received line is only trimmed at its start before it is split: trailing blanks belong to the trailing parameter',
         'R13.9 offset coordinates in the parser: the length of a piece found inside the sub-slice base[a..] is used as an offset into base only with a added',
         'R13.8 the trailing parameter is split off at " :" (accepted idiom); a split at a bare \':\' necessarily misreads "X a:b c"',
     ]
@@ -447,6 +448,13 @@ def check(cx):
     r8 = cx.rule('R13.8', 'trailing-parameter delimiter idiom', floor=1, kind='idiom')
     ffs = cx.fn('from_shared_str')
     wfs = cx.walk(ffs, args=[P('input')], key='c13')
+    r13 = cx.rule('R13.13', 'only leading blanks are trimmed', floor=1, kind='census')
+    trims = [e for e in wfs.events if e.kind == 'call' and (e.data.get('name') or '').startswith('trim')]
+    r13.instance('trim calls in from_shared_str: %s' % [e.data['name'] for e in trims])
+    for e in trims:
+        if e.data['name'] not in ('trim_start', 'trim_start_matches', 'trim_left', 'trim_left_matches'):
+            r13.violation('from_shared_str|trims-end|%s' % e.data['name'], '%s() removes blanks at the end of the line: a trailing parameter '
+                          'ending in blanks (a message text) is executed and relayed shortened' % e.data['name'], loc=cx.loc(e.node))
     r9 = cx.rule('R13.9', 'offset coordinates of re-sliced pieces', floor=0, kind='arithmetic')
     n9 = check_offset_coordinates(cx, r9, wfs, ffs)
     if n9 == 0:
